@@ -164,6 +164,8 @@ def build(u, variant=None):
         return build_func(u)
     if variant == "expr":
         return build_expr(u)
+    if variant == "refs":
+        return build_refs(u)
     u.emit("use vstd::prelude::*;\nuse vstd::std_specs::iter::IteratorSpec;\nverus! {\n")
     for n in OPAQUE:
         u.emit("#[verifier::external_body]\npub struct %s { _opaque: u8 }\n" % n, kind="spec", key="R-opaque:" + n, props=P)
@@ -1028,4 +1030,73 @@ def build_expr(u):
                 post = "bin(%s, BinOper::%s, SimpleExpr::SubQuery(None, Box::new(%s.sp_sub_query())))" % (left, "In" if nm == "in_subquery" else "NotIn", a1)
             u.fn(E, blk, nm, ret="r", props=PE, key="%s::%s" % (ty, nm), vpath="%s::%s" % (ty, nm), rules=rr + [r_pub], spec="ensures r == %s," % post)
         u.emit("}\n")
+    u.emit("} // verus!\nfn main() {}\n")
+
+
+# =====================================================================================================================================
+# variant `refs`  ->  C04 / C08: qualified names: a (schema, table) / (table, column) .. tuple becomes the reference with exactly those
+# parts in that order; TableRef::alias keeps every part and sets the alias
+# =====================================================================================================================================
+PRF = ["C04", "C08"]
+
+
+def build_refs(u):
+    u.emit("use vstd::prelude::*;\nverus! {\n")
+    for n in ["DynIden", "SelectStatementO", "ValuesO", "FunctionCallO"]:
+        u.emit("#[verifier::external_body]\npub struct %s { _opaque: u8 }\n" % n, kind="spec", key="R-opaque:" + n, props=PRF)
+    T = "src/types.rs"
+    u.type_item(T, "enum", "TableRef", props=PRF, rules=[make_r_sub("R-opaque", r"SubQuery\(SelectStatement, DynIden\)", "SubQuery(SelectStatementO, DynIden)"),
+                                                         make_r_sub("R-opaque", r"ValuesList\(Vec<ValueTuple>, DynIden\)", "ValuesList(ValuesO, DynIden)"),
+                                                         make_r_sub("R-opaque", r"FunctionCall\(FunctionCall, DynIden\)", "FunctionCall(FunctionCallO, DynIden)")])
+    u.type_item(T, "enum", "ColumnRef", props=PRF)
+    u.type_item(T, "struct", "Asterisk", props=PRF)
+    u.spec("""pub trait IntoIden: Sized { spec fn sp_iden(self) -> DynIden; fn into_iden(self) -> (r: DynIden) ensures r == self.sp_iden(); }
+pub trait IntoTableRef: Sized { spec fn sp_table_ref(self) -> TableRef; fn into_table_ref(self) -> (r: TableRef) ensures r == self.sp_table_ref(); }
+pub trait IntoColumnRef: Sized { spec fn sp_column_ref(self) -> ColumnRef; fn into_column_ref(self) -> (r: ColumnRef) ensures r == self.sp_column_ref(); }
+""", "builders::refs-traits", props=PRF)
+    r_static = make_r_sub("R-generic", r": 'static", "", min_count=0)
+    IMPLS2 = [
+        ("impl IntoTableRef for TableRef", "into_table_ref", "sp_table_ref", "TableRef", "self"),
+        ("impl<T: 'static> IntoTableRef for T where T: IntoIden,", "into_table_ref", "sp_table_ref", "TableRef", "TableRef::Table(self.sp_iden())"),
+        ("impl<S: 'static, T: 'static> IntoTableRef for (S, T) where S: IntoIden, T: IntoIden,", "into_table_ref", "sp_table_ref", "TableRef", "TableRef::SchemaTable(self.0.sp_iden(), self.1.sp_iden())"),
+        ("impl<S: 'static, T: 'static, U: 'static> IntoTableRef for (S, T, U) where S: IntoIden, T: IntoIden, U: IntoIden,", "into_table_ref", "sp_table_ref", "TableRef",
+         "TableRef::DatabaseSchemaTable(self.0.sp_iden(), self.1.sp_iden(), self.2.sp_iden())"),
+        ("impl IntoColumnRef for ColumnRef", "into_column_ref", "sp_column_ref", "ColumnRef", "self"),
+        ("impl<T: 'static> IntoColumnRef for T where T: IntoIden,", "into_column_ref", "sp_column_ref", "ColumnRef", "ColumnRef::Column(self.sp_iden())"),
+        ("impl IntoColumnRef for Asterisk", "into_column_ref", "sp_column_ref", "ColumnRef", "ColumnRef::Asterisk"),
+        ("impl<S: 'static, T: 'static> IntoColumnRef for (S, T) where S: IntoIden, T: IntoIden,", "into_column_ref", "sp_column_ref", "ColumnRef", "ColumnRef::TableColumn(self.0.sp_iden(), self.1.sp_iden())"),
+        ("impl<T: 'static> IntoColumnRef for (T, Asterisk) where T: IntoIden,", "into_column_ref", "sp_column_ref", "ColumnRef", "ColumnRef::TableAsterisk(self.0.sp_iden())"),
+        ("impl<S: 'static, T: 'static, U: 'static> IntoColumnRef for (S, T, U) where S: IntoIden, T: IntoIden, U: IntoIden,", "into_column_ref", "sp_column_ref", "ColumnRef",
+         "ColumnRef::SchemaTableColumn(self.0.sp_iden(), self.1.sp_iden(), self.2.sp_iden())"),
+    ]
+    for hdr, m, sp, ty, body in IMPLS2:
+        u.emit("%s {\n    // the parts given, in the order given\n    open spec fn %s(self) -> %s { %s }\n" % (hdr.replace(": 'static", ""), sp, ty, body), kind="spec", key="builders::%s" % hdr, props=PRF)
+        u.fn(T, hdr, m, props=PRF, key="%s::%s" % (hdr, m), vpath="%s::%s" % (re.sub(r"impl(<[^>]*>)? ", "", hdr), m), no_canary=True, rules=[r_static])
+        u.emit("}\n")
+    u.emit("impl TableRef {\n")
+    u.spec("""    // the parts that name the table (database / schema / table, or the sub-query / VALUES list / function call), without the alias
+    pub open spec fn same_source(a: TableRef, b: TableRef) -> bool {
+        match (a, b) {
+            (TableRef::Table(t), TableRef::TableAlias(t2, _)) => t == t2,
+            (TableRef::TableAlias(t, _), TableRef::TableAlias(t2, _)) => t == t2,
+            (TableRef::SchemaTable(s, t), TableRef::SchemaTableAlias(s2, t2, _)) => s == s2 && t == t2,
+            (TableRef::SchemaTableAlias(s, t, _), TableRef::SchemaTableAlias(s2, t2, _)) => s == s2 && t == t2,
+            (TableRef::DatabaseSchemaTable(d, s, t), TableRef::DatabaseSchemaTableAlias(d2, s2, t2, _)) => d == d2 && s == s2 && t == t2,
+            (TableRef::DatabaseSchemaTableAlias(d, s, t, _), TableRef::DatabaseSchemaTableAlias(d2, s2, t2, _)) => d == d2 && s == s2 && t == t2,
+            (TableRef::SubQuery(q, _), TableRef::SubQuery(q2, _)) => q == q2,
+            (TableRef::ValuesList(v, _), TableRef::ValuesList(v2, _)) => v == v2,
+            (TableRef::FunctionCall(f, _), TableRef::FunctionCall(f2, _)) => f == f2,
+            _ => false,
+        }
+    }
+    pub open spec fn alias_of(a: TableRef) -> Option<DynIden> {
+        match a {
+            TableRef::TableAlias(_, x) => Some(x), TableRef::SchemaTableAlias(_, _, x) => Some(x), TableRef::DatabaseSchemaTableAlias(_, _, _, x) => Some(x),
+            TableRef::SubQuery(_, x) => Some(x), TableRef::ValuesList(_, x) => Some(x), TableRef::FunctionCall(_, x) => Some(x), _ => None,
+        }
+    }
+""", "builders::TableRef-spec", props=PRF)
+    u.fn(T, "impl TableRef", "alias", ret="r", props=PRF, key="TableRef::alias", vpath="TableRef::alias", rules=[make_r_sub("R-inherent", r"^(\s*)pub fn", r"\1fn", flags=re.M, min_count=0)],
+         spec="ensures\n    // every part that names the source is kept, in place; the alias is the one given (replacing an earlier one)\n    TableRef::same_source(self, r), TableRef::alias_of(r) == Some(alias.sp_iden()),")
+    u.emit("}\n")
     u.emit("} // verus!\nfn main() {}\n")
